@@ -8,8 +8,8 @@ files back.  Oracle: ``get(expand=False)`` returns the value unchanged (or ``set
 with a ConfigObjError), ``get()`` returns it with ``{x}`` replaced by the value of x, the
 neighbours and another section are intact.
 
-Part 2 (location resolution): every ordered list of <= 3 section names from a 12-name
-alphabet (plain, trailing slash, file:// URL, globs, http URL) x every assignment of
+Part 2 (location resolution): every ordered list of <= 3 section names from a 15-name
+alphabet (plain, trailing slash, file:// URL, globs with *, ? and [seq], http URL) x every assignment of
 {option defined?, ignore_parents?} per section x 17 locations, through the real
 ``LocationMatcher`` + ``LocationSection`` + ``Stack.get`` on an ``IniFileStore`` loaded from
 the file text.  Oracle (from the statement and `brz help configuration`): sections match
@@ -32,7 +32,8 @@ LEVEL = "exploration"
 TECHNIQUE = "exhaustive small-scope enumeration of option values (set/save/reload on real config files) and of location-section sets x locations against a reference resolver"
 
 VAL_TOKENS = ("a", " ", '"', "'", ",", "#", "=", "\n", "ü", "{x}")
-SECTION_NAMES = ("/", "/a", "/a/", "/a/b", "/a/*", "/*/b", "/ab", "/a*", "file:///a", "/a/b/c", "/*", "http://h/a")
+SECTION_NAMES = ("/", "/a", "/a/", "/a/b", "/a/*", "/*/b", "/ab", "/a*", "file:///a", "/a/b/c", "/*", "http://h/a",
+                 "/a/?", "/a/[bc]", "/a?")
 LOCATIONS = ("/", "/a", "/a/", "/b", "/ab", "/a/b", "/a/b/", "/a/ab", "/ab/b", "/a/b/c", "/a/c/b", "/b/b/c",
              "file:///a/b", "file:///ab", "http://h/a", "http://h/a/b", "http://h/ab")
 
@@ -187,14 +188,24 @@ def to_path(s):
 
 
 def comp_match(pat, comp):
-    """Glob one path component: * = any run of characters, everything else literal."""
-    if "*" not in pat:
-        return pat == comp
-    head, _, rest = pat.partition("*")
-    if not comp.startswith(head):
-        return False
-    tail = comp[len(head):]
-    return any(comp_match(rest, tail[i:]) for i in range(len(tail) + 1))
+    """Glob one path component: * = any run of characters, ? = any one character,
+    [seq] / [!seq] = one character (not) in seq, everything else literal."""
+    if pat == "":
+        return comp == ""
+    c = pat[0]
+    if c == "*":
+        return any(comp_match(pat[1:], comp[i:]) for i in range(len(comp) + 1))
+    if c == "?":
+        return comp != "" and comp_match(pat[1:], comp[1:])
+    if c == "[":
+        j = pat.find("]", 2)
+        if j > 0:
+            seq = pat[1:j]
+            neg = seq[0] == "!"
+            if neg:
+                seq = seq[1:]
+            return comp != "" and ((comp[0] in seq) != neg) and comp_match(pat[j + 1:], comp[1:])
+    return comp != "" and comp[0] == c and comp_match(pat[1:], comp[1:])
 
 
 def parts(path):
@@ -260,7 +271,8 @@ def store_text(names, content):
     lines = []
     for i, n in enumerate(names):
         has, ign = content[n]
-        lines.append("[%s]" % n)
+        # a name containing ']' has to be quoted in the file (ConfigObj syntax)
+        lines.append('["%s"]' % n if "]" in n else "[%s]" % n)
         if has:
             lines.append("opt = T%d:{relpath}:{basename}" % i)
             lines.append("ap = http://h/T%d" % i)
@@ -356,6 +368,9 @@ def _smallest(violations):
 
 def run(ctx):
     # harness sanity for the reference resolver, from the documented examples
+    if (not comp_match("[bc]", "c") or comp_match("[bc]", "a") or comp_match("?", "ab") or not comp_match("a?", "ab")
+            or comp_match("[bc]", "[bc]")):
+        raise HarnessError("reference component matcher broken")
     if ref_match("/a", "/ab") is not None or ref_match("/a/*", "/a") is not None or ref_match("/a/*", "/a/b/c") != (3, "c"):
         raise HarnessError("reference matcher broken")
     if ref_match("/top/location", "/top/location/branch1") != (3, "branch1"):
